@@ -11,7 +11,7 @@ func init() { specExtras["C20"] = append(specExtras["C20"], c20r5Rules) }
 func c20r5Rules(r *an.Run) {
 	p := r.Prog
 	r.Obl("every-pruned-block-collects-channelless-nodes", "PATH",
-		"in the transaction closure of KVStore.PruneGraph every return that is not a failure return is preceded, on every path from the entry of the closure, by the call of KVStore.pruneGraphNodes: the node garbage collection of a connected block is restricted by no condition (in particular not by whether the block closed a channel of the graph); the closure that calls it is the one that writes the prune log entry",
+		"in the transaction closure of KVStore.PruneGraph and of SQLStore.PruneGraph every return that is not a failure return is preceded, on every path from the entry of the closure, by the call of the store's pruneGraphNodes: the node garbage collection of a connected block is restricted by no condition (in particular not by whether the block closed a channel of the graph); the closure that calls it is the one that writes the prune log entry",
 		"`the node has a known channel` is decided by the existence of the node record (HasV1Node); DisconnectBlockAtHeight and DeleteChannelEdges remove channels without removing their nodes and rely on the collection of the next block, so a block that skips it leaves a node without any channel `known` and its node announcements are applied and relayed", 2,
 		func(o *an.Obl) {
 			root := p.Func("graph/db.KVStore.PruneGraph")
@@ -41,22 +41,32 @@ func c20r5Rules(r *an.Run) {
 			if found == 0 {
 				o.FailAt(root.ID+"#no-prune-closure", root.Where(root.Body.Pos()), "no closure of %s writes the prune log or collects nodes", root.ID)
 			}
-			// the sql sibling leaves its closure early when the block spends no
-			// channel of the graph (after writing the prune log entry) without
-			// collecting nodes: reported to the maintainers, not part of the
-			// floor
-			if sq := p.FuncOpt("graph/db.SQLStore.PruneGraph"); sq != nil {
-				for _, lf := range sq.Lits {
-					gcs := lf.Calls(an.CalleeIs("graph/db.SQLStore.pruneGraphNodes"), false)
-					if len(gcs) == 0 {
-						continue
-					}
-					for _, s := range lf.Returns() {
-						if lf.ClassifyReturn(s) != an.RetFailure && !lf.Before(gcs, s) {
-							o.Note("sql sibling: %s returns at %s without pruneGraphNodes (block that spends no channel of the graph)", lf.ID, s.Where())
-						}
+			// the sql sibling (repair 41afca5: it used to leave its closure
+			// right after the prune log entry when the block spent no channel
+			// of the graph): the same rule, its prune log write is the
+			// UpsertPruneLogEntry query
+			sq := p.Func("graph/db.SQLStore.PruneGraph")
+			sqFound := 0
+			for _, lf := range sq.Lits {
+				gcs := lf.Calls(an.CalleeIs("graph/db.SQLStore.pruneGraphNodes"), false)
+				logs := lf.Calls(an.CalleeNamed("UpsertPruneLogEntry"), false)
+				if len(gcs) == 0 && len(logs) == 0 {
+					continue
+				}
+				sqFound++
+				var targets []an.Site
+				for _, s := range lf.Returns() {
+					if lf.ClassifyReturn(s) != an.RetFailure {
+						targets = append(targets, s)
 					}
 				}
+				if !need(o, lf, "returns that may report success", targets, 1) {
+					continue
+				}
+				mustDoUnless(o, lf, "the node garbage collection (pruneGraphNodes)", gcs, targets)
+			}
+			if sqFound == 0 {
+				o.FailAt(sq.ID+"#no-prune-closure", sq.Where(sq.Body.Pos()), "no closure of %s writes the prune log or collects nodes", sq.ID)
 			}
 		})
 }
